@@ -37,7 +37,7 @@ ASSUMPTIONS = [
 
 def run(ctx: Ctx):
   m = model(ctx)
-  for r in (r1, r2, r3, r4, r5, r7, r8, r9, r10, r11, r13, r15):
+  for r in (r16, r1, r2, r3, r4, r5, r7, r8, r9, r10, r11, r13, r15):
     ctx.guard(r, m)
   from mlmverif.props import c04
   from mlmverif.props import c13
@@ -931,10 +931,44 @@ def r15(ctx: Ctx, m):
   ctx.floor(rule, 4, n)
 
 
+def r16(ctx: Ctx, m):
+  rule = 'R-C05-16'
+  ctx.rule(rule, '"a stop request unblocks every blocked producer and consumer": the queue\'s blocking methods wait with a plain'
+           ' `<condition>.wait(timeout=...)` inside a loop that re-tests the stop flag. A predicate wait'
+           ' (`<condition>.wait_for(pred, ...)`) goes back to sleep inside the primitive whenever its predicate is false, so'
+           ' it is only accepted when the predicate itself is true after a stop (it mentions enqueue_done / _exhausted /'
+           ' _exception / _stop_requested) — `wait_for(lambda: not full)` swallows the wake-up of maybe_stop() and of a failing'
+           ' sibling: the blocked producers never return')
+  n = 0
+  stopish = ('enqueue_done', '_exhausted', 'exhausted', '_exception', 'exception', '_stop_requested')
+  for ci in m.classes:
+    for name, fi in ci.methods.items():
+      for c in ast.walk(fi.node):
+        if not (isinstance(c, ast.Call) and isinstance(c.func, ast.Attribute) and c.func.attr in ('wait', 'wait_for')
+                and is_self_attr(c.func.value)):
+          continue
+        n += 1
+        what = f'{ci.name}.{name}: `{unparse(c.func)}` returns to the stop-flag test on every wake-up'
+        if c.func.attr == 'wait_for':
+          pred = c.args[0] if c.args else kwarg(c, 'predicate')
+          ok = pred is not None and any((isinstance(y, ast.Attribute) and y.attr in stopish) for y in ast.walk(pred))
+          if not ok:
+            ctx.fail(rule, fi, what,
+                     f'`{unparse(c)[:80]}` waits for a predicate that says nothing about a stop: the notify_all of maybe_stop() /'
+                     ' of a failing sibling wakes the thread inside wait_for, the predicate is still false and it sleeps again'
+                     ' — the stop never reaches the loop that tests enqueue_done', node=c)
+            continue
+        ctx.ok(rule, fi, what, c)
+  ctx.floor(rule, 3, n)
+
+
 from mlmverif.selfcheck import B, OK  # noqa: E402
 
 _F = 'utils/iter_utils.py'
 VARIANTS = [
+    B('put-waits-for-a-free-slot-only', 'utils/iter_utils.py',
+      "          if self._enqueue_lock.wait(timeout=self.timeout):\n            continue\n          raise TimeoutError(f'Enqueue timeout",
+      "          if self._enqueue_lock.wait_for(lambda: not self._queue.full(), timeout=self.timeout):\n            continue\n          raise TimeoutError(f'Enqueue timeout", 'R-C05-16'),
     B('revert-note-before-the-failure-is-recorded', 'utils/iter_utils.py',
       "        self._exception = e\n        self._stop_enqueue()\n        e.add_note(f'Exception during enqueueing \"{self.name}\".')\n        logging.exception('chainable: %s', f'\"{self.name}\" enqueue failed.')\n        raise e",
       "        e.add_note(f'Exception during enqueueing \"{self.name}\".')\n        logging.exception('chainable: %s', f'\"{self.name}\" enqueue failed.')\n        self._exception = e\n        self._stop_enqueue()\n        raise e", 'R-C05-15'),
